@@ -178,7 +178,30 @@ def gen_setters(rng, n):
     return out
 
 
+ENUM_INPUTS = [("w_spec", "abort"), ("w_react", "abort"), ("h_selout", "abort"), ("w_calcval", "abort"), ("w_gas_ss", "abort"), ("h_title_copy", "abort"),
+               ("w_kin_rk", "alloc"), ("w_basic", "alloc"), ("w_adv", "alloc")]
+ENUM_SPAN = 420
+
+
 def generate(rng, tier, index):
+    plan = generate_random(rng, tier, index)
+    if tier == "thorough" and index < len(ENUM_INPUTS) * ENUM_SPAN:
+        # exhaustive part: every crash index of a short run (every message / every allocation), one per plan
+        name, kind = ENUM_INPUTS[index // ENUM_SPAN]
+        plan["fault"] = {"kind": kind, "input": name, "cls": "any", "frac": 0.0, "k_abs": index % ENUM_SPAN + 1}
+        if not plan["segments"]:
+            plan["segments"].append({"db": "phreeqc", "dbstring": False, "setters": [], "inputs": [], "entries": []})
+        for sg in plan["segments"]:
+            if sg["db"] not in (None, "phreeqc"):
+                sg["db"] = "phreeqc"
+            sg["inputs"] = [n for n in sg["inputs"] if HIST_DB.get(n) == "phreeqc"]
+            sg["entries"] = sg["entries"][:len(sg["inputs"])]
+        if plan["segments"][0]["db"] is None:
+            plan["segments"][0]["db"] = "phreeqc"
+    return plan
+
+
+def generate_random(rng, tier, index):
     segs = []
     for s in range(rng.range(0, 3)):
         dbk = rng.choice(["phreeqc", "phreeqc", "phreeqc", "wateq4f", "pitzer", "sit", "iso"]) if (s == 0 or rng.chance(40)) else None
@@ -370,10 +393,13 @@ def check_plan(ctx, plan):
             cnt = ctr.get(total, 0) if total else sum(ctr.get(x, 0) for x in ("out", "log", "punch", "screen", "warn"))
         else:
             cnt = ctr.get("alloc", 0)
-        if cnt <= 0:
-            rep.count("fault_impossible")
+        if cnt <= 0 or f.get("k_abs", 0) > cnt:
+            rep.count("fault_impossible" if cnt <= 0 else "enumeration_past_end")
             k = None
             f = None
+        elif f.get("k_abs"):
+            k = f["k_abs"]
+            rep.count("enumerated_crash_points")
         else:
             k = 1 + int(f["frac"] * cnt)
             if k > cnt:
